@@ -242,6 +242,9 @@ func check(c Case) vrep.Result {
 	if c.Doc.Nested {
 		classes = append(classes, "nested-link")
 	}
+	if c.Doc.Odd {
+		classes = append(classes, "link-attribute-not-a-plain-url")
+	}
 	if len(c.Atts) > 0 {
 		classes = append(classes, "attachments")
 	}
@@ -311,4 +314,11 @@ func gen(t *rapid.T) Case {
 }
 
 func TestProp(t *testing.T)   { vrep.Run(t, "Prop", false, gen, check) }
-func TestReplay(t *testing.T) { vrep.Replay(t, "Prop", check) }
+func TestReplay(t *testing.T) {
+	switch vrep.ReplayCheckName() {
+	case "Typed":
+		vrep.Replay(t, "Typed", checkTyped)
+	default:
+		vrep.Replay(t, "Prop", check)
+	}
+}
